@@ -1,48 +1,28 @@
 #!/usr/bin/env python3
-"""Runs every claimed check against every behaviour-preserving refactoring kept under /verif/refactors/<id>/patch.diff
-(applied to /repo, then reverted). A VIOLATION here is a false alarm of the machinery. Writes refactors/MATRIX.json + MATRIX.md.
-usage: refactor_matrix.py [id ...]"""
-import json, os, shutil, subprocess, sys, glob, concurrent.futures as cf
-os.chdir('/verif')
-props = [c['property_id'] for c in json.load(open('MANIFEST.json'))['checks']]
+"""Runs every claimed check against every behaviour-preserving refactoring kept under /verif/refactors/<id>/patch.diff,
+each applied in its own scratch worktree of /repo's HEAD. A VIOLATION here is a false alarm of the machinery.
+Writes refactors/MATRIX.json + MATRIX.md.   usage: refactor_matrix.py [id ...]"""
+import json, os, sys, glob, concurrent.futures as cf
+sys.path.insert(0, '/verif/tools')
+import matrix_common as mc
 only = sys.argv[1:]
-def run(p):
-    d = '/tmp/rfmatrix_' + p
-    os.makedirs(d, exist_ok=True)
-    shutil.copy('known_findings.json', d + '/known_findings.json')
-    r = subprocess.run([BIN, '-prop', p, '-tier', 'quick', '-repo', '/repo', '-verif', d], capture_output=True, text=True)
-    rules = []
-    for line in r.stdout.splitlines():
-        line = line.strip()
-        if line.startswith('rule=') and ('[violation]' in line or '[undecided]' in line):
-            rules.append(line[:400])
-    viol = [l for l in r.stdout.splitlines() if l.startswith('VIOLATION ')]
-    return p, (1 if viol or r.returncode != 0 else 0), rules, (r.stderr[-400:] if r.returncode not in (0, 1) else '')
-subprocess.run(['./setup.sh'], capture_output=True)
-BIN = '/tmp/verifchk_rfmatrix'; shutil.copy('bin/verifchk', BIN)  # the checker may be rebuilt while this runs
-assert subprocess.run(['git', '-C', '/repo', 'status', '--porcelain'], capture_output=True, text=True).stdout.strip() == '', '/repo not clean'
+mc.setup('rfmatrix')
 mpath = 'refactors/MATRIX.json'
 out = json.load(open(mpath)) if os.path.exists(mpath) else {}
-for d in sorted(glob.glob('refactors/*/')):
-    rid = os.path.basename(d.rstrip('/'))
-    if only and rid not in only: continue
-    ap = subprocess.run(['git', '-C', '/repo', 'apply', os.path.abspath(d + 'patch.diff')], capture_output=True, text=True)
-    if ap.returncode != 0:
-        out[rid] = {'applies': False}; print(rid, 'DOES NOT APPLY', ap.stderr[:200]); continue
-    try:
-        with cf.ThreadPoolExecutor(max_workers=16) as ex:
-            res = list(ex.map(run, props))
-    finally:
-        subprocess.run(['git', '-C', '/repo', 'checkout', '--', '.'])
-        subprocess.run(['git', '-C', '/repo', 'clean', '-fdq'])
-    alarms = {p: rules or [err] for p, rc, rules, err in res if rc == 1}
-    out[rid] = {'applies': True, 'false_alarms': alarms}
-    print(rid, 'quiet' if not alarms else 'FALSE ALARM ' + json.dumps({p: len(r) for p, r in alarms.items()}))
-    for p, rs in alarms.items():
-        for r in rs[:6]: print('     ', r[:300])
-for p in props:
-    subprocess.run(['rm', '-rf', '/tmp/rfmatrix_' + p])
-os.remove(BIN)
+ids = [os.path.basename(d.rstrip('/')) for d in sorted(glob.glob('refactors/*/'))]
+ids = [i for i in ids if not only or i in only]
+def one(rid):
+    applies, alarms = mc.run_patch(rid, f'refactors/{rid}/patch.diff')
+    return rid, applies, alarms
+with cf.ThreadPoolExecutor(max_workers=4) as ex:
+    for rid, applies, alarms in ex.map(one, ids):
+        if not applies:
+            out[rid] = {'applies': False}; print(rid, 'DOES NOT APPLY'); continue
+        out[rid] = {'applies': True, 'false_alarms': alarms}
+        print(rid, 'quiet' if not alarms else 'FALSE ALARM ' + json.dumps({p: len(r) for p, r in alarms.items()}), flush=True)
+        for p, rs in alarms.items():
+            for r in rs[:6]: print('     ', r[:300])
+mc.teardown()
 json.dump(out, open(mpath, 'w'), indent=1, sort_keys=True)
 with open('refactors/MATRIX.md', 'w') as f:
     f.write('| refactoring | applies | checks that (wrongly) report it |\n|---|---|---|\n')
